@@ -8,6 +8,7 @@ import (
 	"github.com/internetarchive/Zeno/internal/pkg/config"
 	"github.com/internetarchive/Zeno/internal/pkg/controler/watchers"
 	"github.com/internetarchive/Zeno/internal/pkg/verifhook"
+	"github.com/spf13/viper"
 )
 
 func init() { compSims["disk"] = simDisk }
@@ -70,6 +71,11 @@ func simDisk(cs *compState) {
 		case 1:
 			minSpace = []float64{0.5, 0.3, 20, 0.001, 1.5, 1e-9}[cs.Draw(6)]
 		}
+		// the setting reaches the crawler the way --min-space-required does: through viper and InitConfig
+		viper.Set("min-space-required", minSpace)
+		if err := config.VerifReload(); err != nil {
+			panic(err)
+		}
 		// exact threshold (floor) to bias free space around it
 		thr := new(big.Rat)
 		if minSpace > 0 {
@@ -94,7 +100,6 @@ func simDisk(cs *compState) {
 		for _, free := range frees {
 			free -= free % uint64(bs)
 			cur = DiskReading{Blocks: total / uint64(bs), Bavail: free / uint64(bs), Bsize: bs}
-			config.Get().MinSpaceRequired = minSpace
 			err := watchers.CheckDiskUsage(".")
 			got := err != nil
 			want := refuseRef(total, free, minSpace)
@@ -122,5 +127,6 @@ func simDisk(cs *compState) {
 	k.Probes["c18-decisions-checked"] += checked
 	k.Probes["c18-refusals"] += refused
 	k.Probes["c18-boundary-decisions"] += boundary
-	config.Get().MinSpaceRequired = 0
+	viper.Set("min-space-required", 0.0)
+	config.VerifReload()
 }
